@@ -479,3 +479,46 @@ class Ctx:
             self.pid, self.tier, self.seed, self.cov["discharged"], self.cov["obligations"],
             self.cov["evaluations"], self.cov["distinct_nontrivial"], time.time() - self.t0))
         return 0
+
+
+# --------------------------------------------------------------------------- generic helpers
+
+def strip_branch(l):
+    return l.split(" #")[0]
+
+
+def corpus_ops(pid):
+    ops = []
+    d = os.path.join(VERIF, "corpus", pid)
+    if os.path.isdir(d):
+        for f in sorted(os.listdir(d)):
+            ops += [l.strip() for l in open(os.path.join(d, f)) if l.strip() and not l.startswith("#")]
+    return ops
+
+
+def generic_replay(ctx, path, harness_name, driver_name, cmp=None, harness_kw=None):
+    """re-run the ops of a replay file on implementation and model, print both"""
+    obj = json.load(open(path))
+    ops = obj.get("ops", [])
+    if not ops:
+        print(json.dumps(obj, indent=1)[:4000])
+        print("replay file names a broken obligation, not an input; nothing to execute")
+        return 1
+    lake_build([driver_name])
+    h = build_harness(harness_name, **(harness_kw or {}))
+    text = "\n".join(ops) + "\n"
+    rc, out_i, err = run_exe(h, text)
+    rc2, out_m, err2 = run_exe(driver(driver_name), text)
+    impl, orc = split_oracle(out_i)
+    model = [l for l in out_m.split("\n") if l]
+    print("ops:\n  " + "\n  ".join(ops))
+    print("implementation (rc=%d):\n  %s" % (rc, "\n  ".join(impl)))
+    if orc:
+        print("property oracle on the implementation:\n  " + "\n  ".join(orc))
+    print("model:\n  " + "\n  ".join(model))
+    bad = bool(orc) or rc != 0 or len(impl) != len(model)
+    for a, b, op in zip(impl, model, ops):
+        if not (a == strip_branch(b) or (cmp and cmp(a, b, op))):
+            bad = True
+    print("REPRODUCED" if bad else "not reproduced")
+    return 1 if bad else 0
